@@ -169,8 +169,8 @@ Inductive op :=
 | Fund (a : acct) (d : denom) (x : Z)          (* another module mints an ordinary coin to an account *)
 | SetMeta (d : denom)                           (* bank metadata registered for an ordinary coin *)
 | Deploy (owner : acct) (b : tbeh) (x : Z)      (* a user deploys an ERC20 with initial supply x *)
-| CreateFromCoin (d : denom)
-| CreateFromErc20 (t : tok)
+| CreateFromCoin (sender : acct) (d : denom)
+| CreateFromErc20 (sender : acct) (t : tok)
 | ConvertCoinToEvm (sender : acct) (d : denom) (x : Z) (to : acct)
 | SendToBank (caller : acct) (t : tok) (x : Z) (to : acct)
 | SendToEvm (caller : acct) (d : denom) (x : Z) (to : acct)
@@ -212,6 +212,31 @@ Definition send_to_bank (s : st) (m : mapping) (caller : acct) (x : Z) (to : acc
   _ <- guard (negb (blocked to)) ;;
   bank_send s2 Module to (m_den m) got.
 
+(** the EVM gas coin (unibi) is an ordinary coin for the bridge; CreateFunToken charges and burns a fee in it
+    (deductCreateFunTokenFee: SendCoinsFromAccountToModule then BurnCoins; evm params CreateFuntokenFee).
+    Transaction gas fees are not modelled (they never touch the module's escrow or the supply). *)
+Definition DGas : denom := DCoin 1000%nat.
+Definition create_fee : Z := 10000000000.
+
+Definition pay_create_fee (s : st) (sender : acct) : option st :=
+  _ <- guard (negb (Nat.eqb sender Module)) ;;
+  bank_burn s sender DGas create_fee.
+
+(** createFunTokenFromCoin: denom index check, metadata, deploy the ERC20 at a fresh address, ERC20 index check, insert *)
+Definition create_coin_core (s : st) (d : denom) : option st :=
+  _ <- guard (negb (is_some (find_den s d)) && meta s d) ;;
+  let t := next_tok s in
+  let s1 := new_token s minter_beh Module 0 in
+  _ <- guard (negb (is_some (find_tok s t))) ;;
+  Some (set_reg s1 (reg s1 ++ [{| m_tok := t; m_den := d; m_coin := true |}])).
+
+(** createFunTokenFromERC20: ERC20 index check, contract answers metadata, bank metadata + denom index check, insert *)
+Definition create_erc20_core (s : st) (t : tok) : option st :=
+  _ <- guard (negb (is_some (find_tok s t)) && is_some (tk s t)
+              && negb (meta s (DErc t)) && negb (is_some (find_den s (DErc t)))) ;;
+  let s1 := set_meta s (updD (meta s) (DErc t) true) in
+  Some (set_reg s1 (reg s1 ++ [{| m_tok := t; m_den := DErc t; m_coin := false |}])).
+
 (** one unframed operation; [None] = rejected (nothing changes: the tx / the precompile call is rolled back) *)
 Definition exec (s : st) (o : op) : option st :=
   match o with
@@ -228,17 +253,12 @@ Definition exec (s : st) (o : op) : option st :=
   | Deploy owner b x =>
       _ <- guard (negb (Nat.eqb owner Module) && (0 <=? x)) ;;
       Some (new_token s b owner x)
-  | CreateFromCoin d =>
-      _ <- guard (negb (is_some (find_den s d)) && meta s d) ;;
-      let t := next_tok s in
-      let s1 := new_token s minter_beh Module 0 in
-      _ <- guard (negb (is_some (find_tok s t))) ;;
-      Some (set_reg s1 (reg s1 ++ [{| m_tok := t; m_den := d; m_coin := true |}]))
-  | CreateFromErc20 t =>
-      _ <- guard (negb (is_some (find_tok s t)) && is_some (tk s t)
-                  && negb (meta s (DErc t)) && negb (is_some (find_den s (DErc t)))) ;;
-      let s1 := set_meta s (updD (meta s) (DErc t) true) in
-      Some (set_reg s1 (reg s1 ++ [{| m_tok := t; m_den := DErc t; m_coin := false |}]))
+  | CreateFromCoin sender d =>
+      s0 <- pay_create_fee s sender ;;
+      create_coin_core s0 d
+  | CreateFromErc20 sender t =>
+      s0 <- pay_create_fee s sender ;;
+      create_erc20_core s0 t
   | ConvertCoinToEvm sender d x to =>
       _ <- guard (negb (Nat.eqb sender Module)) ;;
       m <- find_den s d ;;
